@@ -498,6 +498,65 @@ class MinimizeProbe(object):
                           message="simulated probe", status=0)
 
 
+# ------------------------------------------------------------ crash-point seam
+
+class SimInterrupt(KeyboardInterrupt):
+  """An asynchronous interruption (Ctrl-C style) delivered by the simulator at
+  a chosen line of metric-learn code.  A BaseException: library code that
+  catches Exception does not swallow it."""
+
+
+class SimAllocFailure(MemoryError):
+  """A failing allocation delivered by the simulator at a chosen line."""
+
+
+INTERRUPT_TYPES = {"KeyboardInterrupt": SimInterrupt, "MemoryError": SimAllocFailure}
+
+
+class LineInterrupter(object):
+  """Crash-point seam: counts 'line' events executed inside the repository's
+  metric_learn package (sys.settrace; no source change) and, when armed, raises
+  an exception *in the traced frame* at the at-th line - an interruption of a
+  running call at an arbitrary point.  With at=None it only counts (dry run),
+  which is how the simulator learns how many crash points a call has."""
+
+  def __init__(self, at=None, exc="KeyboardInterrupt"):
+    import os
+    from . import REPO
+    self.root = os.path.join(REPO, "metric_learn") + os.sep
+    self.at = at
+    self.exc = exc
+    self.n = 0
+    self.fired = False
+    self.where = None
+    self._old = None
+
+  def _global(self, frame, event, arg):
+    if frame.f_code.co_filename.startswith(self.root):
+      return self._local
+    return None
+
+  def _local(self, frame, event, arg):
+    if event == "line":
+      k = self.n
+      self.n += 1
+      if self.at is not None and k == self.at and not self.fired:
+        self.fired = True
+        fn = frame.f_code.co_filename[len(self.root):]
+        self.where = "%s:%s" % (fn, frame.f_code.co_name)
+        raise INTERRUPT_TYPES[self.exc]("simulated interruption at line event %d" % k)
+    return self._local
+
+  def __enter__(self):
+    self._old = sys.gettrace()
+    sys.settrace(self._global)
+    return self
+
+  def __exit__(self, *exc):
+    sys.settrace(self._old)
+    return False
+
+
 # ------------------------------------------------------------ ambient state
 
 def perturb_ambient(seed, draws=3):
